@@ -265,7 +265,7 @@ theorem facts_counter_lock :
 -- non-vacuity
 example : let r := run [.create "a", .create "b", .delete "a", .create "a", .rename "b" "c"]
     r.live = [("c", 2), ("a", 3)] ∧ r.deleted = [1] ∧ r.metas.lookup "b" = some true ∧ r.metas.lookup "a" = some false := by decide
-example : let e1 : Ent := ⟨1, false, [], "a"⟩; let e2 : Ent := ⟨2, false, [], "a"⟩
+example : let e1 : Ent := ⟨1, false, [], "a", []⟩; let e2 : Ent := ⟨2, false, [], "a", []⟩
     (storeBatch (storeBatch {} 2 10 [e1, e1, e2]) 2 20 [e1, e2]).itemsOf 2 = 2 := by decide
 
 end Hub.C19
